@@ -4,8 +4,27 @@ from .. import gen_exec, mon_exec
 from . import register
 
 
+def scripted_two_children_one_destination():
+    """forced, alone in its history (seeding round 27): a group that declares THREE children, two of them for the same destination
+    service (consecutive indices of that pair).  The first two children begin and report success: the group is not complete; the third
+    child then fails (its receipt says so): every child must be moved to a failure status and the source chain told.  (Kept apart from
+    the random traffic: the code derives the global id from a map destination -> index, so such a group shares its id with any other
+    group of the source that names the same last index — the random generator does not produce repeated destinations.)"""
+    from ..core import History
+    grp = "c1:s1=1,c2:s1=1,c1:s1=2"
+    ids = ["1356:c4:s1-1356:c1:s1-1", "1356:c4:s1-1356:c2:s1-1", "1356:c4:s1-1356:c1:s1-2"]
+    look = [f"q status {i}" for i in ids] + [f"q gtx {ids[0]}"]
+    ops = ["world audit=0 price=1",
+           f"block ibtp ca4 c4:s1 c1:s1 1 req 0 {grp} ok"] + look + [
+           f"block ibtp ca4 c4:s1 c2:s1 1 req 0 {grp} ok"] + look + [
+           "block ibtp ca1 c4:s1 c1:s1 1 ok 0 - ok | ibtp ca2 c4:s1 c2:s1 1 ok 0 - ok"] + look + [
+           f"block ibtp ca4 c4:s1 c1:s1 2 req 0 {grp} ok"] + look + [
+           "block ibtp ca1 c4:s1 c1:s1 2 fail 0 - ok"] + look + ["block"] + look
+    return History(ops, tags={"group:two-children-one-destination"})
+
+
 def gen(rng, n, tier):
-    return gen_exec.gen(rng, n, tier, focus="group", blocks=(6, 16))
+    return [scripted_two_children_one_destination()] + gen_exec.gen(rng, n, tier, focus="group", blocks=(6, 16))
 
 
 register(PropSpec(
